@@ -37,7 +37,8 @@ from easynetwork.lowlevel import constants as _en_constants
 from easynetwork.lowlevel.api_async.endpoints.stream import AsyncStreamEndpoint
 from easynetwork.lowlevel.api_async.transports.utils import aclose_forcefully
 from easynetwork.lowlevel.api_sync.endpoints.stream import StreamEndpoint
-from easynetwork.lowlevel.api_sync.transports.socket import SocketStreamTransport
+from easynetwork.lowlevel.api_async.transports.tls import AsyncTLSStreamTransport
+from easynetwork.lowlevel.api_sync.transports.socket import SocketStreamTransport, SSLStreamTransport
 from easynetwork.protocol import StreamProtocol
 from easynetwork.serializers.abc import AbstractIncrementalPacketSerializer, AbstractPacketSerializer
 from easynetwork.serializers.wrapper.compressor import BZ2CompressorSerializer
@@ -47,6 +48,7 @@ from vsim.harness import CallFaults, Peer, draw_rate, swarm_selector, sync_engin
 from vsim.loop import loop_goes_idle, run_async, wait_until
 from vsim.runner import Harness
 from vsim.sock import Delivery, SimNet, SimSocket
+from vsim.tls import RealTLSPeer, TLSPeer, make_context
 from vsim.world import Deadlock, HarnessError, StepCap, Violation, World
 
 PROPERTY = "C04"
@@ -161,9 +163,9 @@ def _materialise(sizes: list[int], offset: int) -> list[bytes]:
 class _Workload:
     """what to send on one connection: protocol, packets, expected chunk lists"""
 
-    def __init__(self, world: World):
+    def __init__(self, world: World, max_packets: int = 3, max_total: int | None = None):
         self.kind = world.pick("packet.kind", ("chunks", "chunks", "chunks", "bz2"))
-        npackets = 1 + world.choose("npackets", 3)
+        npackets = 1 + world.choose("npackets", max_packets)
         self.packets: list[Any] = []
         self.expected: list[list[bytes]] = []
         self.sizes: list[list[int]] = []
@@ -171,6 +173,11 @@ class _Workload:
             self.protocol = StreamProtocol(ChunkListSerializer())
             for p in range(npackets):
                 sizes = _gen_sizes(world)
+                if max_total is not None:  # keep expensive (TLS) runs modest: clip once the packet reaches max_total bytes
+                    room = max_total
+                    for j, n in enumerate(sizes):
+                        sizes[j] = min(n, room)
+                        room -= sizes[j]
                 chunks = _materialise(sizes, 7 * p)
                 self.packets.append(chunks)
                 self.expected.append(list(chunks))
@@ -655,9 +662,348 @@ def _h_aio(world: World) -> None:
     finally:
         _rekey_fatal(world, _spin_key(family, wl, state["current"], iov))
 
+# --------------------------------------------------------------------------------------------------- TLS helpers
+def _check_plain(family: str, wl: _Workload, done: int, failed: bool, got: bytes, extra: dict, peer_error: Any = None) -> None:
+    """same byte oracle as _check_bytes, on the plaintext the reference TLS peer decrypted"""
+    complete = b"".join(b"".join(c) for c in wl.expected[:done])
+    if not failed:
+        if got != complete:
+            raise Violation(
+                "bytes-equal",
+                f"after {done} successful sends the TLS peer decrypted {len(got)} bytes, expected {len(complete)} (first difference at offset {_first_diff(got, complete)}; peer error={peer_error!r}); {_describe(wl, extra)}",
+                key=f"C04/{family}/bytes-equal",
+            )
+    else:
+        full = complete + b"".join(wl.expected[done])
+        if not full.startswith(got):
+            raise Violation(
+                "bytes-prefix",
+                f"send #{done} failed, the TLS peer decrypted {len(got)} bytes which are not a prefix of the {len(full)} expected bytes (first difference at offset {_first_diff(got, full)}); {_describe(wl, extra)}",
+                key=f"C04/{family}/bytes-prefix",
+            )
+
+
+# --------------------------------------------------------------------------------------------------- async TLS harness
+def _h_aio_tls(world: World) -> None:
+    """AsyncTLSStreamTransport over the real asyncio adapter on SimSocket, against the reference TLSPeer.
+    Faults start after the handshake (the property is about send_packet, not about wrap())."""
+    family = "aio-tls"
+    wl = _Workload(world, max_packets=2, max_total=70000)
+    via = world.pick("via", ("endpoint", "transport"))
+    version = world.pick("tls.version", ("1.3", "1.2"))
+    lib_server = bool(world.choose("tls.lib_server", 2))
+    baseline = world.choose("swarm.faults", 3) == 0
+    net = SimNet(world)
+    net.livelock_limit = 300
+    if baseline:
+        capacity, dsel, peer_mode = 1 << 21, 0, "reads"
+    else:
+        cap_kind = world.pick("link.capacity", ("big", "small", "medium"))
+        capacity = {"big": 1 << 21, "small": 64 + world.choose("link.cap.small", 960), "medium": 2048 + world.choose("link.cap.medium", 30) * 1024}[cap_kind]
+        if cap_kind != "big":
+            capacity = max(capacity, wl.total() // 200 + 1)
+            world.fault("capacity_small")
+        dsel = world.choose("link.delay", 3)
+        if dsel:
+            world.fault("delay")
+        peer_mode = "reads" if cap_kind == "big" else world.pick("peer.mode", ("reads", "slow", "paused"))
+    delivery = Delivery(0, 1, {0: (0,), 1: (1,), 2: tuple(range(0, 5))}[dsel])
+    lib, psock = net.socketpair(delivery_ab=delivery, capacity_ab=capacity)
+    peer = TLSPeer(world, psock, server_side=not lib_server, version=version)
+    peer.auto_close_reply = True
+    gate = {"open": True, "gen": 0}
+    peer_visible = peer._on_visible
+
+    def gated_visible() -> None:
+        if gate["open"]:
+            peer_visible()
+
+    peer.rx.on_visible = gated_visible
+
+    def tick(gen: int, period: float, left: int) -> None:
+        if gate["gen"] != gen:
+            return
+        if left <= 0:
+            gate["open"] = True
+        peer_visible()  # reads everything visible now
+        if left > 0:
+            world.after(period, lambda: tick(gen, period, left - 1))
+
+    if baseline:
+        short_den = eagain_den = eintr_den = 0
+        fail_from = None
+        peer_cfg: tuple = ()
+    else:
+        short_den = draw_rate(world, "sw.short", (0, 8, 2))
+        eagain_den = draw_rate(world, "sw.eagain", (0, 16, 4))
+        eintr_den = draw_rate(world, "sw.eintr", (0, 16, 4))
+        fail_from = None
+        if world.chance("sw.fail_from", 1, 5):
+            fail_from = (world.choose("fail.n", 24), world.pick("fail.errno", (errno.ECONNRESET, errno.EPIPE)))
+        if peer_mode == "slow":
+            peer_cfg = ((1 + world.choose("peer.period", 8)) / 64.0, 1 + world.choose("peer.steps", 48))
+        elif peer_mode == "paused":
+            peer_cfg = ((1 + world.choose("peer.pause", 64)) / 64.0, 0)
+        else:
+            peer_cfg = ()
+    plan = CallFaults(world, eagain_den=eagain_den, eintr_den=eintr_den)
+    if fail_from is not None:
+        plan.fail_from["send"] = fail_from
+    tap = _SendTap(world, plan)
+    extra = {"via": via, "tls": version, "lib_server": lib_server, "capacity": capacity, "peer": peer_mode, "peer_cfg": peer_cfg, "fail_from": fail_from}
+    world.notes.update(family=family, kind=wl.kind, sizes=wl.sizes, **{k: str(v) for k, v in extra.items()})
+    tap.family = family
+    tap.spin_key = lambda: f"C04/{family}/spin"
+    tap.describe = lambda: _describe(wl, extra)
+    backend = SimAsyncIOBackend(net)
+    state = {"done": 0, "failed": False}
+
+    def check_fatal() -> None:
+        if world.fatal is not None:
+            raise world.fatal
+
+    def activate_faults() -> None:
+        lib.fault_plan = tap
+        net.short_write_den = short_den
+        tap.last_written = lib.tx_pipe.total_written  # type: ignore[union-attr]
+        if peer_mode in ("slow", "paused"):
+            gate["open"] = False
+            gate["gen"] += 1
+            period, steps = peer_cfg
+            world.after(period, lambda g=gate["gen"]: tick(g, period, steps))
+            world.fault("peer_stops_reading")
+
+    def release_peer() -> None:
+        gate["gen"] += 1
+        gate["open"] = True
+        peer_visible()
+
+    async def main() -> None:
+        loop = asyncio.get_running_loop()
+        if not baseline:
+            swarm_selector(world, loop.sim_selector)  # type: ignore[attr-defined]
+        raw = await backend.wrap_stream_socket(lib)
+        tls = await AsyncTLSStreamTransport.wrap(raw, make_context(lib_server, version), server_side=lib_server, server_hostname=None if lib_server else "sim.host", handshake_timeout=100000.0, shutdown_timeout=50.0)
+        sender: Any = AsyncStreamEndpoint(tls, wl.protocol, max_recv_size=4096) if via == "endpoint" else tls
+        try:
+            activate_faults()
+            if lib.fault_plan is not tap:
+                raise HarnessError("C04 aio-tls: fault plan not installed")
+            for i, packet in enumerate(wl.packets):
+                pos = len(world.trace)
+                tap.begin(lib, None, None)
+                try:
+                    if via == "endpoint":
+                        await sender.send_packet(packet)
+                    else:
+                        await tls.send_all_from_iterable(wl.protocol.generate_chunks(packet))
+                    outcome = "ok"
+                except ConnectionError:
+                    outcome = "connection-error"
+                except _PASS_THROUGH:
+                    raise
+                except asyncio.CancelledError:
+                    raise
+                except BaseException as exc:
+                    raise Violation(
+                        "send-raises",
+                        f"TLS send raised {type(exc).__name__}: {exc} (only a connection error is allowed); {_describe(wl, extra)}",
+                        key=f"C04/{family}/send-raises/{type(exc).__name__}",
+                    ) from None
+                world.log("send_packet", family, i, outcome)
+                check_fatal()
+                zero = sum(1 for t in world.trace[pos:] if t[0] == "send" and t[1] == lib.label and t[2] == 0)
+                if zero > len(wl.sizes[i]) + 1:
+                    raise Violation("op-budget", f"send #{i} issued {zero} zero-length socket sends; {_describe(wl, extra)}", key=f"C04/{family}/op-budget")
+                if outcome != "ok":
+                    world.probe("outcome." + outcome)
+                    state["failed"] = True
+                    break
+                state["done"] += 1
+                world.progress(1)
+            # after the last fault: the peer reads again; nothing may keep the loop busy
+            release_peer()
+            idle = await loop_goes_idle(world, loop)
+            check_fatal()
+            if not idle:
+                raise Violation("spin", f"the event loop does not go idle after the TLS send returned; {_describe(wl, extra)}", key=f"C04/{family}/spin/loop-busy")
+            _check_plain(family, wl, state["done"], state["failed"], peer.plain_in, extra, peer.engine.error)
+            with backend.move_on_after(200.0) as scope:
+                await sender.aclose()
+            check_fatal()
+            if scope.cancelled_caught():
+                raise Violation("aclose-completes", f"aclose() of the TLS transport did not complete within 200 virtual seconds (shutdown_timeout=50); {_describe(wl, extra)}", key=f"C04/{family}/aclose-hangs")
+        finally:
+            lib.fault_plan = None
+            await aclose_forcefully(sender)
+            if not lib.sim_closed:
+                lib.close()
+
+    try:
+        with sim_sockets(net):
+            run_async(world, main)
+    finally:
+        _rekey_fatal(world, f"C04/{family}/spin")
+
+
+# --------------------------------------------------------------------------------------------------- blocking TLS harness
+class _RealPeer(RealTLSPeer):
+    """RealTLSPeer that can stop reading (paused) and can die (abortive close of the far end)"""
+
+    paused = False
+    dead = False
+
+    def pump(self) -> None:
+        if self.paused or self.dead:
+            return
+        super().pump()
+
+    def kill(self) -> None:
+        if not self.dead:
+            self.dead = True
+            try:
+                self.far.close()
+            except OSError:
+                pass
+            self.world.log("peer_close", "real")
+
+
+_TLS_TIMEOUTS = (None, 1000.0, 0.25, 2.0, 1.0 / 64)
+
+
+def _h_sync_tls(world: World) -> None:
+    """SSLStreamTransport over a real in-process socketpair whose far end is the reference TLS peer.
+    Socket-call faults cannot be injected here (OpenSSL does the I/O on the descriptor); the fault space is the kernel
+    send buffer (SO_SNDBUF small), a peer that reads late / periodically / never (finite timeout) or dies."""
+    family = "sync-tls"
+    wl = _Workload(world, max_packets=2, max_total=70000)
+    via = world.pick("via", ("transport", "endpoint"))
+    version = world.pick("tls.version", ("1.3", "1.2"))
+    lib_server = bool(world.choose("tls.lib_server", 2))
+    baseline = world.choose("swarm.faults", 3) == 0
+    retry_interval = world.pick("retry_interval", (math.inf, 1.0, 1.0 / 16))
+    peer = _RealPeer(world, server_side=not lib_server, version=version)
+    if baseline:
+        sndbuf, peer_mode, cfg = None, "reads", ()
+    else:
+        sndbuf = world.pick("sndbuf", (None, 2048, 4096, 16384))
+        peer_mode = world.pick("peer.mode", ("reads", "paused", "slow", "never", "dies"))
+        if peer_mode == "paused":
+            cfg: tuple = ((1 + world.choose("peer.pause", 64)) / 64.0,)
+        elif peer_mode == "slow":
+            cfg = ((1 + world.choose("peer.period", 8)) / 64.0, 1 + world.choose("peer.steps", 24))
+        elif peer_mode == "dies":
+            cfg = (world.choose("peer.dies", 32) / 64.0,)
+        else:
+            cfg = ()
+        if sndbuf is not None:
+            world.fault("capacity_small")
+    timeouts = [world.pick("timeout", _TIMEOUTS_FINITE if peer_mode == "never" else _TLS_TIMEOUTS) for _ in wl.packets]
+    extra = {"via": via, "tls": version, "lib_server": lib_server, "sndbuf": sndbuf, "peer": peer_mode, "peer_cfg": cfg, "timeouts": timeouts, "retry_interval": retry_interval}
+    world.notes.update(family=family, kind=wl.kind, sizes=wl.sizes, **{k: str(v) for k, v in extra.items()})
+    gen = [0]
+
+    def slow_tick(g: int, period: float, left: int) -> None:
+        if gen[0] != g or peer.dead:
+            return
+        peer.paused = False
+        peer.pump()
+        if left > 0:
+            peer.paused = True
+            world.after(period, lambda: slow_tick(g, period, left - 1))
+
+    def activate() -> None:
+        if peer_mode == "paused":
+            peer.paused = True
+            world.fault("peer_stops_reading")
+            world.after(cfg[0], lambda g=gen[0]: slow_tick(g, 0.0, 0))
+        elif peer_mode == "slow":
+            peer.paused = True
+            world.fault("peer_stops_reading")
+            world.after(cfg[0], lambda g=gen[0]: slow_tick(g, cfg[0], cfg[1]))
+        elif peer_mode == "never":
+            peer.paused = True
+            world.fault("peer_stops_reading")
+        elif peer_mode == "dies":
+            world.after(cfg[0], peer.kill)
+            world.fault("rst_at")
+
+    tr: Any = None
+    sender: Any = None
+    done = 0
+    failed = False
+    try:
+        with sync_engine(world) as make_selector:
+            if sndbuf is not None:
+                import socket as _s
+
+                peer.lib_sock.setsockopt(_s.SOL_SOCKET, _s.SO_SNDBUF, sndbuf)
+            tr = SSLStreamTransport(peer.lib_sock, make_context(lib_server, version), retry_interval=retry_interval, server_side=lib_server, server_hostname=None if lib_server else "sim.host", shutdown_timeout=5.0, selector_factory=make_selector)
+            sender = StreamEndpoint(tr, wl.protocol, max_recv_size=4096) if via == "endpoint" else tr
+            activate()
+            for i, (packet, timeout) in enumerate(zip(wl.packets, timeouts)):
+                t0 = world.now
+                try:
+                    if via == "endpoint":
+                        sender.send_packet(packet, timeout=timeout)
+                    else:
+                        tr.send_all_from_iterable(wl.protocol.generate_chunks(packet), math.inf if timeout is None else timeout)
+                    outcome = "ok"
+                except TimeoutError:
+                    outcome = "timeout"
+                except ConnectionError:
+                    outcome = "connection-error"
+                except Deadlock:
+                    raise Violation("blocks-forever", f"blocking TLS send(timeout={timeout}) cannot make progress and never returns; {_describe(wl, extra)}", key=f"C04/{family}/blocks-forever") from None
+                except _PASS_THROUGH:
+                    raise
+                except BaseException as exc:
+                    raise Violation(
+                        "send-raises",
+                        f"TLS send raised {type(exc).__name__}: {exc} (only TimeoutError / ConnectionError are allowed); {_describe(wl, extra)}",
+                        key=f"C04/{family}/send-raises/{type(exc).__name__}",
+                    ) from None
+                elapsed = world.now - t0
+                world.log("send_packet", family, i, outcome, elapsed)
+                if timeout is not None and elapsed > timeout + 1e-9:
+                    raise Violation("time-budget", f"TLS send(timeout={timeout}) took {elapsed} virtual seconds (outcome {outcome}); {_describe(wl, extra)}", key=f"C04/{family}/time-budget/{outcome}")
+                if outcome != "ok":
+                    world.probe("outcome." + outcome)
+                    failed = True
+                    break
+                done += 1
+                world.progress(1)
+            # the peer reads whatever the kernel still holds
+            gen[0] += 1
+            peer.paused = False
+            if not peer.dead:
+                peer.pump()
+                guard = 0
+                while world.has_events() and guard < 10000:
+                    world.advance(None)
+                    guard += 1
+                peer.pump()
+            if not (peer.dead and not failed):
+                # (a peer that died after the last send returned may legitimately not have read the kernel buffer)
+                _check_plain(family, wl, done, failed, bytes(peer.engine.plain_in), extra, peer.engine.error)
+            elif not b"".join(b"".join(c) for c in wl.expected[:done]).startswith(bytes(peer.engine.plain_in)):
+                _check_plain(family, wl, done, True if done < len(wl.expected) else False, bytes(peer.engine.plain_in), extra, peer.engine.error)
+    finally:
+        try:
+            if tr is not None and not tr.is_closed():
+                peer.auto_close_reply = True
+                with sync_engine(world) as _ms:
+                    tr.close()
+        except BaseException:
+            pass
+        peer.dispose()
+
+
 
 HARNESSES = [
     Harness("sync-sendmsg", lambda w: _h_sync(w, "sync-sendmsg"), weight=2),
     Harness("sync-send", lambda w: _h_sync(w, "sync-send"), weight=1),
     Harness("aio-adapter", _h_aio, weight=2),
+    Harness("aio-tls", _h_aio_tls, weight=1, wall_limit=60.0),
+    Harness("sync-tls", _h_sync_tls, weight=1, wall_limit=60.0),
 ]
